@@ -88,6 +88,8 @@ type Txn struct {
 	columns []columnCache    // The column mapping
 	logger  commit.Logger    // The optional commit logger
 	reader  *commit.Reader   // The commit reader to re-use
+
+	keys map[string]uint32 // The keys inserted by this transaction, not committed yet
 }
 
 // Index returns the current index
@@ -106,6 +108,7 @@ func (txn *Txn) reset() {
 	txn.columns = txn.columns[:0]
 	txn.updates = txn.updates[:0]
 	txn.inserts = txn.inserts[:0]
+	txn.keys = nil
 }
 
 // bufferFor loads or creates a buffer for a given column.
@@ -451,11 +454,26 @@ func (txn *Txn) InsertKey(key string, fn func(Row) error) error {
 	if idx, ok := txn.owner.pk.OffsetOf(key); ok {
 		return fmt.Errorf("column: key '%s' already exists at offset %d", key, idx)
 	}
+	if idx, ok := txn.keys[key]; ok {
+		return fmt.Errorf("column: key '%s' already inserted at offset %d", key, idx)
+	}
 
 	// If not found, insert at a new index
 	idx, err := txn.insert(fn, 0)
 	txn.bufferFor(txn.owner.pk.name).PutString(commit.Put, idx, key)
+	txn.insertedKey(key, idx, err)
 	return err
+}
+
+// insertedKey remembers a key this transaction has inserted: the lookup table only knows committed keys
+func (txn *Txn) insertedKey(key string, idx uint32, err error) {
+	if err != nil {
+		return // the row goes away with the transaction
+	}
+	if txn.keys == nil {
+		txn.keys = make(map[string]uint32)
+	}
+	txn.keys[key] = idx
 }
 
 // UpsertKey inserts or updates a row given its corresponding primary key.
@@ -467,10 +485,14 @@ func (txn *Txn) UpsertKey(key string, fn func(Row) error) error {
 	if idx, ok := txn.owner.pk.OffsetOf(key); ok {
 		return txn.QueryAt(idx, fn)
 	}
+	if idx, ok := txn.keys[key]; ok {
+		return txn.QueryAt(idx, fn)
+	}
 
 	// If not found, insert at a new index
 	idx, err := txn.insert(fn, 0)
 	txn.bufferFor(txn.owner.pk.name).PutString(commit.Put, idx, key)
+	txn.insertedKey(key, idx, err)
 	return err
 }
 
